@@ -14,7 +14,7 @@ PROPERTIES_V = 'theories/C07/Properties.v'
 IMPORTS = 'Require Import FV.Gen.C07 FV.C07.Model FV.C07.Run.\nLocal Open Scope N_scope.'
 CASE_TYPE = 'case'
 CHECK = 'check_case'
-SHARD_SIZE = 120
+SHARD_SIZE = 100
 RULE = ('byte streams made of 1..7 request lines drawn from a grammar of SECoP requests against a two-module node '
         '(valid, semantically failing, unknown and handler-colliding actions) and mutated at byte level (invalid/overlong/'
         'surrogate UTF-8, broken JSON, missing/extra fields, blanks/tabs/CR before and after, empty lines, lines longer than '
@@ -284,7 +284,26 @@ class FakeSock:
         pass
 
 
-def run_stream(chunks, others=(), ):
+def run_stream(chunks, others=()):
+    """run _run_stream in a fresh thread: the error branches of RequestHandler.handle format the whole python stack with
+    the repr of every local variable, which must not include the harness's case lists"""
+    import threading
+    box = {}
+
+    def target():
+        try:
+            box['r'] = _run_stream(chunks, others)
+        except BaseException as e:      # harness problem
+            box['e'] = e
+    t = threading.Thread(target=target)
+    t.start()
+    t.join()
+    if 'e' in box:
+        raise box['e']
+    return box['r']
+
+
+def _run_stream(chunks, others=()):
     """chunks: list of bytes|None for connection 'A'; others: list of [recv index of A, [bytes lines script]] run nested.
     Returns the raw record of the run"""
     env = _setup()
@@ -682,7 +701,11 @@ def g_bytes(b):
 
 
 def g_str(s):
-    return '(U 0x1' + ''.join('%06x' % ord(c) for c in s) + ')' if s else '[]'
+    if not s:
+        return '[]'
+    if all(ord(c) < 256 for c in s):
+        return '(B 0x1' + ''.join('%02x' % ord(c) for c in s) + ')'
+    return '(U 0x1' + ''.join('%06x' % ord(c) for c in s) + ')'
 
 
 def g_ostr(s):
@@ -789,13 +812,14 @@ VALID = [
     b'ping t\xc3\xa9st', b'ping \xe2\x80\xa8', b'ping \xc2\xa0', b'read m\xc3\xb6d:value', b'r\xc3\xa9ad m:value',
     b'change m:target 1e999', b'change m:target NaN', b'change m:target -Infinity', b'change m:_txt "a b  c"',
 ]
+BULKY = (b'describe', b'describe .', b'describe m', b'help', b'help x', b'help x 1', b'', b'activate')
 BYTES_OF_INTEREST = [0x00, 0x09, 0x0a, 0x0b, 0x0c, 0x0d, 0x1c, 0x1f, 0x20, 0x22, 0x5b, 0x5d, 0x7b, 0x7d, 0x3a, 0x5c, 0x7f, 0x80,
                      0x85, 0xa0, 0xbf, 0xc0, 0xc2, 0xc3, 0xa9, 0xe0, 0xe2, 0xed, 0xef, 0xf0, 0xf4, 0xf5, 0xff]
 BAD_UTF8 = [b'\xff', b'\xc3', b'\xc0\xaf', b'\xe0\x80\xaf', b'\xed\xa0\x80', b'\xf4\x90\x80\x80', b'\xf8\x88\x80\x80\x80',
             b'\xe2\x82', b'\x80', b'\xf0\x9f\x98']
 GOOD_UTF8 = [b'\xc3\xa9', b'\xe2\x82\xac', b'\xf0\x9f\x98\x80', b'\xc2\x85', b'\xc2\xa0', b'\xe2\x80\xa8', b'\xe3\x80\x80',
              b'\xef\xbf\xbf', b'\xf4\x8f\xbf\xbf', b'\xed\x9f\xbf', b'\xee\x80\x80', b'\xe1\x9a\x80']
-BAD_JSON = [b'{bad', b'[1,', b'"open', b'tru', b'01', b"'x'", b'{"a":}', b'[1 2]', b'1 2', b'\\', b'nul', b'{', b'}', b'[' * 3000]
+BAD_JSON = [b'{bad', b'[1,', b'"open', b'tru', b'01', b"'x'", b'{"a":}', b'[1 2]', b'1 2', b'\\', b'nul', b'{', b'}', b'[' * 1100]
 
 
 def mutate(rng, line):
@@ -828,11 +852,11 @@ def mutate(rng, line):
     if r < 0.82:     # extra field / doubled blank
         p = line.find(b' ')
         return line + b' extra' if p < 0 or rng.random() < 0.5 else line[:p] + b' ' + line[p:]
-    if r < 0.86:     # long line (longer than one recv)
+    if r < 0.835:    # long line (longer than one recv)
         n = rng.choice([1000, 1023, 1024, 1025, 2100])
         return line + b' ' * 1 + b'"' + b'x' * n + (b'"' if rng.random() < 0.6 else b'')
     if r < 0.9:
-        return rng.choice([b'ping x ', b'read m:value ', b'change m:_txt ']) + b'[' * rng.choice([5, 40, 990, 1500]) + \
+        return rng.choice([b'ping x ', b'read m:value ', b'change m:_txt ']) + b'[' * rng.choice([5, 40, 40, 200, 200, 1500]) + \
             (b']' * 5 if rng.random() < 0.5 else b'')
     if r < 0.95:     # mutated action colliding with handler names
         return rng.choice([b'request', b'_ident', b'help', b'_ident ', b'__class__', b'request ', b'', b'*IDN? x', b'*IDN?  1']) + \
@@ -845,6 +869,8 @@ def rand_stream(rng):
     lines = []
     for _ in range(n):
         ln = rng.choice(VALID)
+        if ln in BULKY and rng.random() < 0.8:
+            ln = rng.choice(VALID)
         k = rng.random()
         if k < 0.55:
             ln = mutate(rng, ln)
@@ -945,8 +971,8 @@ def codec_cases(rng, n):
 
 def gen_cases(seed, tier):
     rng = random.Random(seed * 1000003 + 7)
-    n_stream = {'quick': 3600, 'thorough': 40000, 'search': 40000}[tier]
-    n_codec = {'quick': 1800, 'thorough': 20000, 'search': 20000}[tier]
+    n_stream = {'quick': 2600, 'thorough': 40000, 'search': 40000}[tier]
+    n_codec = {'quick': 1400, 'thorough': 20000, 'search': 20000}[tier]
     cases = [stream_case(rng) for _ in range(n_stream)]
     cases.extend(codec_cases(rng, n_codec))
     # exhaustive segmentations of short streams
